@@ -304,7 +304,7 @@ pub fn x_from_raw(kind: u16, n: usize, us: &[u16]) -> Vec<f64> {
 
 /// collide: 0 = independent values; 1 = exact collision (second parameter of some role equals
 /// the first one of that role: exactly dependent columns for equal kinds); 2 = near collision
-/// (relative offset 10^-U(3,10): a singular value between machine epsilon and a user threshold)
+/// (relative offset 10^-U(3,15.5): a singular value anywhere between the rounding level of f64 and a user threshold)
 pub fn alpha_tame(spec: &ModelSpec, us: &[u16], collide: u8) -> Vec<f64> {
     let roles = spec.roles();
     let fac = spec.unit_factors();
@@ -316,7 +316,7 @@ pub fn alpha_tame(spec: &ModelSpec, us: &[u16], collide: u8) -> Vec<f64> {
                     a[j] = if collide == 1 {
                         a[i]
                     } else {
-                        let e = 10f64.powf(-3.0 - 7.0 * (us[(i + j) % us.len()] as f64 / 65536.0));
+                        let e = 10f64.powf(-3.0 - 12.5 * (us[(i + j) % us.len()] as f64 / 65536.0));
                         a[i] * (1.0 + e)
                     };
                     return a;
